@@ -17,6 +17,7 @@ from . import c11_util as U
 
 COQ_FILES = ['Printer/PrinterConsts.v', 'Printer/FlushModel.v', 'Printer/PrintOps.v', 'Extract/Extract_printer.v', 'Printer/FlushProofs.v',
              'Printer/OpsProofs.v', 'Printer/PrinterTheorems.v', 'Properties/Properties_C11.v']
+PINNED_FILES = ['Printer/PinnedWitnesses.v', 'Properties/Properties_C11_pinned.v']     # witnesses about the pinned code: not an obligation
 ASAN_ENV = {'ASAN_OPTIONS': 'detect_leaks=0:halt_on_error=0:suppress_equal_pcs=0:allocator_may_return_null=1:symbolize=0'}
 KEY_FS0, KEY_END, KEY_SEP, KEY_B64 = 'print-ex-flush-size-0', 'closing-run-overrun', 'vector-separator-overrun', 'base64-no-progress'
 
@@ -33,9 +34,27 @@ def gen_printer_consts(ctx):
 def check_theorems(ctx):
     conf = os.path.join(lib.COQ, 'Makefile.conf')
     known = os.path.exists(conf) and 'Printer/FlushModel.v' in open(conf).read()
-    if known: return ctx.check_theorems(extra_targets=['Extract/Extract_printer.vo'])
-    ctx.notes.append('coq/Makefile does not list the Printer files yet (bin/setup not re-run): compiled with coqc directly')
-    return U.compile_theorems_directly(ctx, COQ_FILES, 'Properties_C11')
+    if known:
+        ok = ctx.check_theorems(extra_targets=['Extract/Extract_printer.vo'])
+    else:
+        ctx.notes.append('coq/Makefile does not list the Printer files yet (bin/setup not re-run): compiled with coqc directly')
+        ok = U.compile_theorems_directly(ctx, COQ_FILES, 'Properties_C11')
+    if ok:
+        # concrete witnesses about the pinned code and examples: outside the dependency cone of the theorems; when the
+        # constants of the tree differ from the pinned ones they need not compute any more - a note, not an obligation
+        good = True
+        if known and 'Printer/PinnedWitnesses.v' in open(conf).read():
+            good, out = ctx.coq_make(['Properties/Properties_C11_pinned.vo'])
+        else:
+            for f in PINNED_FILES:
+                v = os.path.join(lib.COQ, f)
+                if not os.path.exists(v + 'o') or os.path.getmtime(v + 'o') < max(os.path.getmtime(os.path.join(lib.COQ, x)) for x in COQ_FILES + [f]):
+                    rc, out = lib.sh(['coqc', '-Q', lib.COQ, 'Flatcc', v], timeout=900, cwd=lib.COQ)
+                    if rc != 0: good = False; break
+        if not good:
+            ctx.notes.append('Properties_C11_pinned.v (witnesses about the pinned code, closed by computation) does not compute with the constants of this tree')
+            ctx.log('note: the pinned-code witness file does not compute with the constants of this tree (not an obligation)')
+    return ok
 
 
 def ensure_driver(ctx):
@@ -71,10 +90,13 @@ def build_harness(ctx):
 
 class Case:
     """one value: python dict t, generator class, JSON text"""
-    def __init__(self, klass, t, flagsets=None, sweep=True, dyn=True, file=True, note='', allocfail=False):
+    def __init__(self, klass, t, flagsets=None, sweep=True, dyn=True, file=True, note='', allocfail=False, deep=None):
         self.klass, self.t, self.flagsets, self.sweep, self.dyn, self.file, self.note = klass, t, flagsets, sweep, dyn, file, note
         self.allocfail = allocfail
+        self.deep = deep          # (depth, ntv): built with the builder API instead of the JSON parser (deeper than parser / verifier accept)
+        self.load_line = 'loaddeep %d %d' % deep if deep else None
         self.json = U.t_json(t)
+        if self.load_line is None: self.load_line = 'load ' + self.json.hex()
         self.feat = U.features(t)
 
 
@@ -175,7 +197,7 @@ def run(ctx):
     units = []        # one unit = all lines of one value for one harness process
     mlines = []       # (plan, kind, meta, model line)
     for c in cases:
-        cl = ['load ' + c.json.hex()]
+        cl = [c.load_line]
         metas = [('load', None, None)]
         for p in per_case[id(c)]:
             fl, ind, L = p['fl'], p['ind'], p['L']
@@ -203,6 +225,9 @@ def run(ctx):
                 if L > 60000: sizes = [0, RSV, RSV + 1, L + RSV]
                 for sz in sizes:
                     cl.append('dyn %d %d %d' % (fl, ind, sz)); metas.append(('dyn', p, (sz, 0)))
+                # EVERY initial size of the growing buffer for short texts
+                if c.sweep is True and L <= (4000 if ctx.thorough else 700):
+                    cl.append('dynsweep %d %d %d %d' % (fl, ind, 1, L + RSV + 3)); metas.append(('dynsweep', p, (1, L + RSV + 3)))
                 # allocation failures: the k-th enlargement fails (overflow must be reported, nothing written outside)
                 if c.allocfail:
                     for sz in (RSV, 100, max(RSV, L // 3)):
@@ -217,12 +242,32 @@ def run(ctx):
     chunks = U.split_chunks(units, 14)
 
     def run_units(us):
-        lines = [l for _, cl, _ in us for l in cl]
-        res, err = hrun(H, lines, timeout=1200)
-        out, k = [], 0
-        for c, cl, metas in us:
-            out.append(res[k:k + len(cl)]); k += len(cl)
-        return out, err
+        """all lines of the units of one chunk through one harness process; when the process dies on a line that line
+        gets the reply CRASH, the rest of its unit SKIPPED (the loaded buffer is lost), and a new process continues with
+        the next unit"""
+        outs, errs, start, restarts = [], [], 0, 0
+        while start < len(us):
+            part = us[start:]
+            lines = [l for _, cl, _ in part for l in cl]
+            rc, res, err = H.run(lines, timeout=1200)
+            errs.append(err)
+            k = 0
+            done_units = 0
+            for c, cl, metas in part:
+                if k + len(cl) <= len(res):
+                    outs.append(res[k:k + len(cl)]); k += len(cl); done_units += 1
+                    continue
+                got = res[k:]
+                tail = ' '.join(err.strip().split('\n')[-8:])[:500]
+                outs.append(got + ['CRASH ' + tail] + ['SKIPPED'] * (len(cl) - len(got) - 1))
+                done_units += 1
+                break
+            start += done_units
+            restarts += 1
+            if restarts > 40:
+                for c, cl, metas in us[start:]: outs.append(['SKIPPED'] * len(cl))
+                break
+        return outs, '\n'.join(errs)
     cres = U.run_parallel(run_units, chunks)
     ctx.log('implementation runs done')
     impl = {}          # (id(plan), kind, meta) -> reply
@@ -233,11 +278,28 @@ def run(ctx):
         for (c, cl, metas), rs in zip(us, outs):
             for (kind, p, meta), line, r in zip(metas, cl, rs):
                 if kind == 'load':
+                    if r == 'SKIPPED': continue
                     if not r.startswith('OK'):
-                        ctx.violation('load:' + c.klass, 'generated JSON was not accepted by the generated parser / harness: %s' % r[:200],
-                                      {'json': c.json.decode('latin1')[:2000], 'reply': r})
-                    else:
-                        c.verify = int(r.split()[2])
+                        raise lib.CheckError('the harness could not build the buffer of a document this check generated (class %s, %s): reply %r; document: %s' % (
+                            c.klass, c.load_line[:40], r[:120], c.json.decode('latin1')[:600]))
+                    c.verify = int(r.split()[2])
+                    if c.verify != 0 and not c.deep:
+                        raise lib.CheckError('a generated document of class %s does not verify (code %d): %s' % (c.klass, c.verify, c.json.decode('latin1')[:600]))
+                    continue
+                if r == 'SKIPPED': continue
+                if r.startswith('CRASH'):
+                    ctx.count(line, klass='crash')
+                    ctx.violation('crash:' + kind, 'the harness process died (memory error beyond the guard zone, or fatal signal) while printing: %s, class %s, flags %d indent %d: %s' % (
+                        line, c.klass, p['fl'], p['ind'], r[:300]), {'klass': c.klass, 'json_hex': c.json.hex(), 'json': c.json.decode('latin1')[:1500], 'flags': p['fl'], 'indent': p['ind'],
+                                                                     'harness_lines': [c.load_line, 'ref %d %d' % (p['fl'], p['ind']), line], 'stderr': r[:1500]})
+                    continue
+                if kind == 'dynsweep':
+                    a, b = meta
+                    toks = r.split(' ')
+                    recs = [x.split('=')[0] for x in toks]; orcs = [x.split('=')[1] if '=' in x else '-' for x in toks]
+                    impl[(id(p), kind, meta)] = (recs, line, orcs)
+                    mlines.append((p, 'dynsweep', meta, 'dsweep %s %d %d %s %d %d %d %s' % (var, a, b, '/'.join(orcs), p['ind'], p['fl'] & 1, (p['fl'] >> 1) & 1, p['tok']),
+                                   (b - a + 1) * p['nops']))
                     continue
                 if kind == 'dyn':
                     # reply = record + the block sizes the printer asked of realloc: the ORACLE input of the model run
@@ -260,7 +322,8 @@ def run(ctx):
     # ------------------------------------------------------------ 5. compare
     def replay_of(c, p, line, extra=None):
         d = {'klass': c.klass, 'json_hex': c.json.hex(), 'json': c.json.decode('latin1')[:1500], 'flags': p['fl'], 'indent': p['ind'],
-             'text_length': p['L'], 'harness_lines': ['load ' + c.json.hex(), 'ref %d %d' % (p['fl'], p['ind']), line], 'note': c.note}
+             'text_length': p['L'], 'harness_lines': [c.load_line, 'ref %d %d' % (p['fl'], p['ind']), line], 'note': c.note,
+             'verified_buffer': not c.deep}
         if extra: d.update(extra)
         return d
 
@@ -344,8 +407,6 @@ def run(ctx):
                 k = next((i for i in range(min(len(a), len(b))) if a[i] != b[i]), min(len(a), len(b)))
                 ctx.violation('corr:text', 'printed text differs from the model stream at byte %d: impl %r model %r' % (k, a[max(0, k - 30):k + 30], b[max(0, k - 30):k + 30]),
                               replay_of(c, p, r[1]))
-            if getattr(c, 'verify', 0) != 0:
-                ctx.notes.append('value of class %s is rejected by the verifier (code %d) but prints' % (c.klass, c.verify))
         else:
             if ret >= 0 or err != E_DEEP:
                 ctx.violation('deep-recursion-unreported', 'nesting beyond the limit printed with return %d error %d' % (ret, err), replay_of(c, p, r[1]))
@@ -372,6 +433,29 @@ def run(ctx):
             if oracle(c, p, 'fixed', sz, cr, 'sweep %d %d %d %d' % (p['fl'], p['ind'], sz, sz)): bad_sizes.add((pid_, sz))
     for (p, kind, meta, mline, cost), mr in zip(mlines, mres):
         c = p['case']
+        if kind == 'dynsweep':
+            recs, line, orcs = impl[(id(p), kind, meta)]
+            a, b = meta
+            mrecs = mr.split(' ')
+            if len(recs) != b - a + 1 or len(mrecs) != b - a + 1:
+                raise lib.CheckError('dynsweep reply length: impl %d model %d want %d' % (len(recs), len(mrecs), b - a + 1))
+            ctx.count('%s|%d|%d|dynsweep' % (c.json[:48].hex(), p['fl'], p['ind']), klass='growing-every-size:' + c.klass, n=b - a + 1)
+            for sz, cr, mm, alloc in zip(range(a, b + 1), recs, mrecs, orcs):
+                cr = U.parse_c(cr); mm = U.parse_m(mm)
+                if cr is None: continue
+                one = 'dyn %d %d %d' % (p['fl'], p['ind'], sz)
+                if not cr['hang'] and cr['over'] == 0 and not mm['hang'] and mm.get('obad'):
+                    ctx.violation('growth-policy-side-condition', 'the growing buffer is enlarged to a block that does not restore the reserve above the old block '
+                                  '(initial size %d, blocks %s, reserve %d): outside the proved side condition new >= old + reserve' % (sz, alloc, RSV),
+                                  replay_of(c, p, one, {'realloc_sizes': alloc}))
+                bad = oracle(c, p, 'growing', sz, cr, one)
+                if not bad and not U.same(cr, mm):
+                    ndis += 1
+                    ctx.violation('corr:dyn', 'implementation and model (variant %s) disagree, growing initial size %d, blocks from realloc %s, flags %d indent %d, class %s: impl %s model %s' % (
+                        var, sz, alloc, p['fl'], p['ind'], c.klass, cr, mm), replay_of(c, p, one, {'model_line': mline[:300]}))
+                elif not bad and not U.same_trace(cr, mm):
+                    ntrace[0] += 1
+            continue
         if kind != 'sweep':
             r = impl.get((id(p), kind, meta))
             if r is None: continue
@@ -462,10 +546,13 @@ def probes(ctx, H, RSV):
     a missing repair is a violation of the property with that input as replay"""
     variant = {}
 
-    def ask(t, lines):
+    def ask(t, lines, deep=None):
         j = U.t_json(t)
-        all_lines = ['timeout 250', 'load ' + j.hex()] + lines      # probes expect hangs on the pinned tree: short CPU-time limit
+        load = 'loaddeep %d %d' % deep if deep else 'load ' + j.hex()
+        all_lines = ['timeout 250', load] + lines      # probes expect hangs on the pinned tree: short CPU-time limit
         res, err = hrun(H, all_lines, timeout=300)
+        if not res[1].startswith('OK'):
+            raise lib.CheckError('the harness could not build the buffer of a probe document (%s): reply %r; document: %s' % (load[:40], res[1][:120], j.decode('latin1')[:400]))
         return j, all_lines[1:], res[2:], err
 
     # (1) fixed buffer of exactly the reserve
@@ -502,11 +589,10 @@ def probes(ctx, H, RSV):
             name, r['over'] % 1000000, sz, n), {'json': j.decode()[:600], 'json_hex': j.hex(), 'harness_lines': ls[:2] + ['sweep 0 0 %d %d' % (sz, sz)], 'size': sz, 'mode': 'fixed', 'asan': err[:1200]})
     # (3) element separators of union / table vectors
     found = None
-    deep_tv = U.chain(97, {'tv': [{'i': 1} for _ in range(120)]})      # elements at the recursion limit print nothing but the separator
-    for name, t, ind in (('union-vector-of-NONE', {'uv': [('NONE', None)] * 40}, 2), ('union-vector-of-NONE', {'uv': [('NONE', None)] * 40}, 0),
-                         ('table-vector-at-recursion-limit', deep_tv, 2)):
-        jt = U.t_json(t)
-        j, ls, res, err = ask(t, ['ref 0 %d' % ind, 'sweep 0 %d %d %d' % (ind, RSV + 1, RSV + 260)])
+    deep_tv = U.chain(98, {'tv': [{'i': 1} for _ in range(120)]})      # elements at the recursion limit print nothing but the separator (unverified buffer, builder-made)
+    for name, t, ind, deep in (('union-vector-of-NONE', {'uv': [('NONE', None)] * 40}, 2, None), ('union-vector-of-NONE', {'uv': [('NONE', None)] * 40}, 0, None),
+                               ('table-vector-at-recursion-limit', deep_tv, 2, (98, 120))):
+        j, ls, res, err = ask(t, ['ref 0 %d' % ind, 'sweep 0 %d %d %d' % (ind, RSV + 1, RSV + 260)], deep)
         recs = [U.parse_c(x) for x in res[1].split(' ')]
         ctx.count('probe sep ' + name, klass='probe', n=len(recs))
         over = [(RSV + 1 + i, r) for i, r in enumerate(recs) if r and r['over'] > 0]
@@ -531,8 +617,12 @@ def make_cases(ctx, rng, RSV, FLUSH):
     t = {'i': 7}
     for k in range(60): t = {'tv': [t]} if k % 3 == 0 else ({'u': ('T', t)} if k % 3 == 1 else {'t': t})
     add('deep-mixed', t, flagsets=[(0, 0), (0, 1), (2, 0)])
-    add('deep-recursion', U.chain(99), flagsets=[(0, 0), (0, 2)], sweep='edges')
-    add('deep-recursion', U.chain(97, {'tv': [{'i': 1} for _ in range(80)]}), flagsets=[(0, 0), (0, 2)], sweep='edges')
+    # deeper than the verifier / parser accept: UNVERIFIED buffers made with the builder API; only memory safety, termination
+    # and the deep_recursion error are expected of the printer
+    add('deep-recursion', U.chain(99), flagsets=[(0, 0), (0, 2)], sweep='edges', deep=(99, 0))
+    add('deep-recursion', U.chain(130), flagsets=[(0, 0)], sweep='edges', deep=(130, 0))
+    add('deep-recursion', U.chain(98, {'tv': [{'i': 1} for _ in range(80)]}), flagsets=[(0, 0), (0, 2)], sweep='edges', deep=(98, 80))
+    add('deep-limit', U.chain(97, {'tv': [{'i': 1} for _ in range(5)]}), flagsets=[(0, 0), (0, 2)], deep=(97, 5), note='99 nested tables: prints, the verifier refuses')
     # vectors of elements that print (almost) nothing
     for n in ([1, 25, 70] if not T else [0, 1, 2, 20, 21, 22, 30, 64, 70, 200]):
         add('empty-table-vector', {'tv': [{} for _ in range(n)]}, flagsets=[(0, 0), (0, 1)])
@@ -557,6 +647,10 @@ def make_cases(ctx, rng, RSV, FLUSH):
     add('vectors', {'iv': list(range(-20, 40)), 'strs': [b'', b'a', b'"'], 'sv': [], 'tv': [], 'uv': [], 'ev': [], 'dv': [], 'cv': []})
     add('nested-root', {'nest': {'nest': {'s': b'inner', 'tv': [{}, {'i': 1}]}, 'i': 3}, 'i': 9})
     add('empty', {})
+    # the longest unchecked run: quote colon space, a 24-character double, comma, newline, then a flush that stores its terminator
+    add('number-run', {'i': 7, 'd': -2.2250738585072014e-308, 'u64': 1}, flagsets=[(0, 0), (0, 1), (0, 2), (1, 1), (1, 0)])
+    add('number-run', {'dv': [-1.2345678901234567e-200, 5e-324, -4.9406564584124654e-324], 'd': -1.7976931348623157e308, 's': b'x'}, flagsets=[(0, 0), (0, 1), (1, 3)])
+    add('number-run', {'t': {'d': -2.2250738585072014e-308}, 'tv': [{'d': -2.2250738585072014e-308}, {'d': -1.2345678901234567e-200, 'i': 1}]}, flagsets=[(0, 0), (0, 1)])
     # a field of enum type whose 31-character name and 31-character symbol are printed back to back (two symbols, no check between)
     add('enum-long-name', {U.F31: 9, 'i': 5}, flagsets=[(0, 0), (0, 1), (1, 0), (8, 0), (1, 2)])
     add('enum-long-name', {'s': b'abc', 'tv': [{U.F31: 9}, {U.F31: 9, 'e': 9}], 'ev': [9, 9, 9], U.F31: 9}, flagsets=[(0, 0), (0, 2), (1, 0)])
